@@ -59,7 +59,12 @@ func safeClose(ch chan struct{}) {
 
 // acquire implements the cooperative protocol around a try-function.
 func acquire(w simhook.World, wq *waitq, try func() bool, block func(), tag string) {
-	if w == nil || !w.Yield(tag) {
+	if w == nil {
+		block()
+		return
+	}
+	coop := w.Yield(tag)
+	if !coop && !w.Durable() {
 		block()
 		return
 	}
@@ -72,9 +77,8 @@ func acquire(w simhook.World, wq *waitq, try func() bool, block func(), tag stri
 			return
 		}
 		<-ch
-		if !w.Yield(tag + "-retry") {
-			block()
-			return
+		if coop {
+			coop = w.Yield(tag + "-retry")
 		}
 	}
 }
